@@ -50,6 +50,7 @@ type vfScenario struct {
 	Branches []vfBranch             `json:"branches"`
 	Max      int                    `json:"max"`
 	NilOut   []string               `json:"nilout"` // nodes whose output type is `any` and whose body returns nil: their state post-handler supplies the value
+	CCB      bool                   `json:"ccb"`    // the top-level graph is compiled with a (no-op) graph compile callback
 	StoreFail bool                  `json:"storefail"` // the checkpoint store refuses every write
 	Pipe     bool                   `json:"pipe"`   // streaming nodes (snodes) hand out pipe-backed streams of two chunks instead of one array-backed chunk
 	DOpt     bool                   `json:"dopt"`   // every call carries a node-designated callbacks option in front of the other options
@@ -905,9 +906,17 @@ func (r *vfRun) compileOpts(sc *vfScenario, store CheckPointStore) []GraphCompil
 	}
 	if store != nil {
 		opts = append(opts, WithCheckPointStore(store))
+		if sc.CCB {
+			// a compile callback on the top-level graph: nested graphs are then compiled through the callback path, with the options their nodes carry
+			opts = append(opts, WithGraphCompileCallbacks(vfCompileCB{}))
+		}
 	}
 	return opts
 }
+
+type vfCompileCB struct{}
+
+func (vfCompileCB) OnFinish(ctx context.Context, info *GraphInfo) {}
 
 func (r *vfRun) newGraphOpts(sc *vfScenario) []NewGraphOption {
 	if sc.State {
